@@ -209,6 +209,7 @@ func vC01ManyFiles(rc *runCtx) {
 	o.srcPaths = paths
 	o.dstDir = dst
 	o.profile = vDrawProfile(tp, cfg.timeout)
+	o.profile.capForHops(cfg.timeout, cfg.relays)
 	o.profile.bytesPerMs, o.profile.latPm = 0, 0
 	rc.res.ClassKey = fmt.Sprintf("many shape%d %s", shape, cfg.key())
 	rc.res.Scenario["config"] = cfg.key()
@@ -289,6 +290,7 @@ func vScenarioC01(rc *runCtx) {
 	o.kHash = []int64{0, 1024, 4096}[tp.Draw("c01.khash", 3)]
 	o.trigSplitLF = !cfg.srvWindows && cfg.srvTmux == "" && tp.Bool("c01.trigsplitlf", 100)
 	o.profile = vDrawProfile(tp, cfg.timeout)
+	o.profile.capForHops(cfg.timeout, cfg.relays)
 	// the destination of an upload as the user types it: relative to where trz is started (also with -f, whose
 	// background process must still mean the same directory)
 	o.relDst = cfg.upload && tp.Bool("c01.reldst", 200)
